@@ -30,6 +30,11 @@ SHAPES = OrderedDict(
         ("p1_float", ("Summary line", [("a", "float", P, 0.5)], None)),
         ("p1_optint_none", ("Summary line", [("a", "Optional[int]", P, NoneStr)], None)),
         ("p1_optstr_s", ("Summary line", [("a", "Optional[str]", "the a", S)], None)),
+        ("p1_optint_d", ("Summary line", [("a", "Optional[int]", P, D)], None)),
+        ("p1_optbool_f", ("Summary line", [("a", "Optional[bool]", P, False)], None)),
+        ("p1_optfloat_z", ("Summary line", [("a", "Optional[float]", P, 0.0)], None)),
+        ("p1_unionnum_d", ("Summary line", [("a", "Union[int, float]", P, D)], None)),
+        ("p2_d_then_optd", ("Summary line", [("a", "int", "the a", 7), ("b", "Optional[int]", P, D)], None)),
         ("p1_list", ("Summary line", [("a", "List[str]", P, ABSENT)], None)),
         ("p1_literal", ("Summary line", [("a", "Literal['np', 'tf']", P, "np")], None)),
         ("p1_union", ("Summary line", [("a", "Union[int, str]", P, ABSENT)], None)),
